@@ -214,6 +214,44 @@ def check_density_normalized(ctx, d):
             okn = "linspace(0.0,1.0,%s+1)[1:-1]" % d.params[1] in s
     ctx.check(okn, "DensityGrid.normalized has N-1 interior points", detail="interior points", expected="linspace(0,1,N+1)[1:-1] levels",
               found="; ".join(ast.unparse(sc.enclosing_loops(c)[0][1]) for c in inner) or "none", fi=d)
+    # cumulative density up to tau by the unit-interval rescaling: d/ds y = tau*density(s*tau), s in [0,1]  =>  y(1) = int_0^tau density
+    n = ctx.norm(d)
+    dd = [st for st in walk_no_nested(d.node) if isinstance(st, ast.Assign) and isinstance(st.value, ast.Dict) and any(isinstance(k, ast.Constant) and k.value == "ode" for k in st.value.keys)]
+    okd = len(dd) == 1
+    found = ""
+    if okd:
+        ent = {k.value: v for k, v in zip(dd[0].value.keys, dd[0].value.values) if isinstance(k, ast.Constant)}
+        pn = ent.get("p")
+        okd = pn is not None and isinstance(pn, ast.Name) and "ode" in ent and "t" in ent
+        if okd:
+            sname = pn.id
+            fn = ([ast.unparse(c.func) for c in ast.walk(ent["ode"]) if isinstance(c, ast.Call) and ast.unparse(c.func).split(".")[-1] == "substitute"] + ["substitute"])[0]
+            want = Norm(None).poly(ast.parse("%s*%s(self.density, self.t, self.t*%s)" % (sname, fn, sname), mode="eval").body)
+            got = Norm(None).poly(ent["ode"])
+            found = str(got)
+            okd = got == want and ast.unparse(ent["t"]) == "self.t"
+    ctx.check(okd, "DensityGrid.normalized integrates the density over [0, tau] by rescaling to the unit interval", detail="cumulative density of the wrong argument (grid is not the equidistribution of the declared density)",
+              expected="ode = scale*substitute(density, t, t*scale), p = scale, t = self.t", found=found, fi=d, sample={"ode": found})
+    ic = [c for c in walk_no_nested(d.node) if isinstance(c, ast.Call) and ast.unparse(c.func) == "integrator"]
+    oki = len(ic) == 1 and len(ic[0].args) >= 5 and [ast.unparse(a) for a in ic[0].args[3:5]] == ["0", "1"] and bool(dd) and ast.unparse(ic[0].args[2]) == ast.unparse(dd[0].targets[0])
+    ctx.check(oki, "DensityGrid.normalized integrates over the unit interval", detail="horizon of the cumulative-density integrator", expected="integrator(name, plugin, ode, 0, 1, opts)", found="; ".join(ast.unparse(c)[:80] for c in ic), fi=d)
+    tot = [st for st in walk_no_nested(d.node) if isinstance(st, ast.Assign) and isinstance(st.targets[0], ast.Name) and "p=1" in ast.unparse(st.value).replace(" ", "") and "['xf']" in ast.unparse(st.value)]
+    okt = len(tot) == 1
+    roots = [c for c in walk_no_nested(d.node) if isinstance(c, ast.Call) and ast.unparse(c.func).endswith("root_scalar")]
+    okr = len(roots) == 1 and bool(inner)
+    if okr and okt:
+        lam = roots[0].args[0] if roots[0].args else None
+        kw = {k.arg: ast.unparse(k.value).replace(" ", "") for k in roots[0].keywords}
+        lv = sc.enclosing_loops(roots[0])[-1][0] if sc.enclosing_loops(roots[0]) else None
+        okr = isinstance(lam, ast.Lambda) and len(lam.args.args) == 1 and kw.get("bracket") == "[0,1]" and isinstance(lv, ast.Name)
+        if okr:
+            tau = lam.args.args[0].arg
+            body = ast.unparse(lam.body).replace(" ", "")
+            okr = ("p=%s)" % tau) in body and body.endswith("-%s)" % lv.id) and "x0=0" in body
+            it = ast.unparse(sc.enclosing_loops(roots[0])[-1][1]).replace(" ", "")
+            okr = okr and ("*%s" % tot[0].targets[0].id) in it
+    ctx.check(okr and okt, "DensityGrid.normalized places node i where the cumulative density reaches i/N of the total", detail="equidistribution levels", expected="root of intg(p=tau)-v for v in linspace(0,1,N+1)[1:-1]*I, tau in [0,1]",
+              found="; ".join(ast.unparse(c)[:100] for c in roots), fi=d)
 
 
 @rule("R06.2", min_instances=3, desc="integrator grid: M equal steps per control interval, shared end point kept only for the last interval")
